@@ -13,7 +13,24 @@ IMPORTS = "Cluster.Auth Cluster.Gate"
 S_ALPHA = ["name 1 2 3", "sstatus 0", "cstatus 1", "cstatus 0", "schal 1 2 7", "cchal 5 k:0:I",
            "cchal 5 k:1:I", "sack k:0:I", "empty", "start", "force"]
 C_ALPHA = ["name 1 2 3", "sstatus 0", "sstatus 4", "cstatus 1", "schal 1 2 7", "cchal 5 k:0:I",
-           "sack k:0:I", "sack k:1:I", "empty"]
+           "sack k:0:I", "sack k:1:I", "sack E", "empty"]
+
+# structured cookie family (harness/src/lib.rs c17_cookie): k = 100 + 4*len_index + variant
+COOKIE_LENS = [0, 1, 31, 32, 59, 60, 61, 64, 65, 200]
+COOKIES = [0, 1, 2] + [100 + 4 * i + v for i in range(len(COOKIE_LENS)) for v in range(4)
+                       if not (COOKIE_LENS[i] == 0 and v in (1, 2))]
+
+
+def near_cookies(k):
+    """different cookies that share a long prefix with cookie k / differ in the last byte / in length only"""
+    if k < 100:
+        return [c for c in (0, 1, 2) if c != k]
+    i = (k - 100) // 4
+    out = [c for c in COOKIES if c >= 100 and (c - 100) // 4 == i and c != k]
+    for j in (i - 1, i + 1):
+        if 0 <= j < len(COOKIE_LENS):
+            out += [c for c in COOKIES if c >= 100 and (c - 100) // 4 == j]
+    return out
 
 WRONG_DIGESTS = ["k:1:I", "k:2:I", "k:0:I:g1", "k:0:I:g2", "k:0:I:g3", "k:0:I:g4", "k:0:I:g5",
                  "raw:0", "raw:1", "raw:2", "k:0:12345", "k:0:0", "k:1:7"]
@@ -41,9 +58,9 @@ def rand_msg(rng, server):
     if r < 0.48:
         return f"schal {rng.randint(0, 5)} {rng.randint(0, 5)} {rng.choice([0, 7, 2**32 - 1, rng.randint(0, 2**32 - 1)])}"
     if r < 0.64:
-        return f"cchal {rng.choice([0, 5, 2**32 - 1])} {rng.choice(['k:0:I'] + WRONG_DIGESTS)}"
+        return f"cchal {rng.choice([0, 5, 2**32 - 1])} {rng.choice(['k:0:I', 'E'] + WRONG_DIGESTS)}"
     if r < 0.80:
-        return f"sack {rng.choice(['k:0:I'] + WRONG_DIGESTS)}"
+        return f"sack {rng.choice(['k:0:I', 'E'] + WRONG_DIGESTS)}"
     if r < 0.86:
         return "empty"
     if server:
@@ -51,14 +68,39 @@ def rand_msg(rng, server):
     return "empty"
 
 
+def wrong_digest(rng, ck, sch=None):
+    """a digest an adversary WITHOUT cookie ck can produce"""
+    r = rng.random()
+    if r < 0.35:
+        return f"k:{rng.choice(near_cookies(ck))}:I"          # a different cookie (long common prefix ...)
+    if r < 0.55:
+        return "E"                                             # replay of the digest this side sent
+    if r < 0.65 and sch is not None:
+        return f"k:{rng.choice(near_cookies(ck))}:{sch}"       # the adversary's own digest of the server challenge
+    if r < 0.8:
+        return f"k:{ck}:I:g{rng.randint(1, 5)}"                # mangled right digest
+    return rng.choice(["raw:0", "raw:1", "raw:2", f"k:{ck}:12345", f"k:{ck}:0"])
+
+
 def gen_fsm_random(chk, n):
     """Mostly valid handshakes with at most a few mutations, then trailing traffic."""
     rng = chk.rng
     out = []
+    # adversarial-acceptor family for the client FSM (directed): ServerStatus(Ok), ServerChallenge(n), then a
+    # replayed / echoed / foreign / garbage digest; every structured cookie as the client's cookie
+    for ck in COOKIES:
+        for sch in (0, 99, 2**32 - 1):
+            for d in ["E", "raw:1", "raw:0", f"k:{ck}:{sch}"] + [f"k:{c}:I" for c in near_cookies(ck)[:4]] \
+                    + [f"k:{c}:{sch}" for c in near_cookies(ck)[:2]]:
+                out.append(("cfsm", None, ck, ["sstatus 0", f"schal 7 8 {sch}", f"sack {d}", "sack E"]))
+        # and the server FSM against peers holding a near cookie
+        for c in near_cookies(ck)[:6]:
+            out.append(("sfsm", "init", ck, ["name 1 2 3", "start", f"cchal 5 k:{c}:I", f"cchal 5 k:{ck}:I"]))
     for _ in range(n):
-        server = rng.random() < 0.55
-        ck = rng.choice([0, 0, 0, 1])
+        server = rng.random() < 0.5
+        ck = rng.choice([0, 0, 1] + COOKIES)
         right = f"k:{ck}:I"
+        sch = rng.choice([0, 7, 2**32 - 1, rng.randint(0, 2**32 - 1)])
         if server:
             path = rng.choice(["direct", "alive"])
             ops = [f"name {rng.randint(0, 9)} {rng.randint(0, 9)} {rng.choice([0, 3, 2**64 - 1])}"]
@@ -66,21 +108,16 @@ def gen_fsm_random(chk, n):
             ops += [f"cchal {rng.choice([0, 5, 99, 2**32 - 1])} {right}"]
         else:
             ops = [f"sstatus {rng.choice([0, 0, 1, 4, 9])}",
-                   f"schal {rng.randint(0, 9)} {rng.randint(0, 9)} {rng.randint(0, 2**32 - 1)}",
+                   f"schal {rng.randint(0, 9)} {rng.randint(0, 9)} {sch}",
                    f"sack {right}"]
         style = rng.random()
         if style < 0.25:
             pass  # honest
         elif style < 0.6:
-            # corrupt the final digest
             last = ops[-1].split()
-            last[-1] = rng.choice([d.replace("k:0:", f"k:{ck}:") if d.startswith("k:0:I:") else d
-                                   for d in WRONG_DIGESTS if d != right])
-            if last[-1] == right:
-                last[-1] = "raw:1"
+            last[-1] = wrong_digest(rng, ck, None if server else sch)
             ops[-1] = " ".join(last)
         elif style < 0.8:
-            # insert / replace / drop one message
             i = rng.randrange(len(ops))
             how = rng.choice(["ins", "rep", "drop", "dup"])
             if how == "ins":
@@ -93,7 +130,6 @@ def gen_fsm_random(chk, n):
                 ops.insert(i, ops[i])
         else:
             ops = [rand_msg(rng, server) for _ in range(rng.randint(1, 6))]
-        # trailing traffic: replays after the outcome
         for _ in range(rng.choice([0, 1, 2, 4, 8])):
             ops.append(rng.choice(ops) if rng.random() < 0.5 and ops else rand_msg(rng, server))
         if server:
@@ -101,6 +137,59 @@ def gen_fsm_random(chk, n):
         else:
             out.append(("cfsm", None, ck, ops))
     return out
+
+
+def peer_knows_cookie(c):
+    """does the scripted peer ever compute a digest with the FSM's own cookie?"""
+    ck = c[2]
+    return any(f"k:{ck}:" in op for op in c[3])
+
+
+def gen_hash_cases(chk, n):
+    rng = chk.rng
+    out = []
+    for a in COOKIES:
+        for b in COOKIES:
+            out.append((a, 5, b, 5))
+            out.append((a, 2**32 - 1, b, 2**32 - 1))
+    for _ in range(n):
+        a = rng.choice(COOKIES)
+        b = rng.choice(near_cookies(a) + [a])
+        c1 = rng.choice([0, 1, 255, 256, 2**31, 2**32 - 1, rng.randint(0, 2**32 - 1)])
+        c2 = c1 if rng.random() < 0.7 else rng.choice([0, 1, 256, c1 ^ 1, c1 ^ (1 << 31)])
+        out.append((a, c1, b, c2))
+    return out
+
+
+def run_hash(chk, build, factor):
+    """challenge_digest (real SHA-256 code) vs the injective symbolic digest dg_sym of the model:
+    equal digests <=> equal (cookie, challenge) on every structured pair explored."""
+    cases = gen_hash_cases(chk, (500 if chk.tier == "quick" else 20000) * factor)
+    impl = run_harness(build, "eng_auth", [f"hash {a} {c1} {b} {c2}" for a, c1, b, c2 in cases], shards=4)
+    exprs = []
+    for k in range(0, len(cases), 500):
+        exprs.append("[" + "; ".join(f"N.eqb (dg_sym {a} {c1}) (dg_sym {b} {c2})" for a, c1, b, c2 in cases[k:k + 500]) + "]")
+    model = []
+    for r in coq_eval("C17hash", IMPORTS, exprs, shards=4):
+        model += parse_term(r)
+    for c, x, m in zip(cases, impl, model):
+        chk.coverage["evaluations"] += 1
+        t = parse_term(x)
+        same, length = t[1] == "true", t[2]
+        chk.count("hash.equal" if same else "hash.distinct")
+        desc = json.dumps({"kind": "hash", "harness_line": "hash %d %d %d %d" % c, "real_digests_equal": same,
+                           "digest_len": length, "model_dg_sym_equal": m,
+                           "cookie_a": f"index {c[0]}", "cookie_b": f"index {c[2]}"}, indent=1)
+        if length != 32:
+            chk.violation("challenge_digest: digest length is not 32", "C17 hash correspondence\n" + desc, failing_input=False)
+        if same and m != "true":
+            chk.violation("challenge_digest is not injective: two different (cookie, challenge) inputs give the same "
+                          "digest, so a peer holding a DIFFERENT cookie passes the challenge",
+                          "C17 oracle (digest equality => cookie and challenge equality) rejects the real challenge_digest\n" + desc)
+        elif (not same) and m == "true":
+            chk.violation("challenge_digest is not a function of (cookie, challenge)", "C17 hash correspondence\n" + desc,
+                          failing_input=False)
+    return len(cases)
 
 
 def fsm_line(c):
@@ -167,6 +256,22 @@ def run_fsm(chk, build, factor):
             distinct.add(lines[i])
         if not ok or not same:
             bad.append(i)
+    # ---- cookie-less peers never authenticate (judged on the real FSM's states only)
+    cookieless = [i for i, c in enumerate(cases)
+                  if ("SOk" in pairs[i][1] or "COk" in pairs[i][1]) and not peer_knows_cookie(c)]
+    echo_only = [i for i in cookieless if any(op.endswith(" E") for op in cases[i][3])]
+    other = [i for i in cookieless if i not in set(echo_only)]
+    # an echoed digest is accepted by correct code only if the client's fresh challenge happens to equal the
+    # server's (probability 2^-32 per handshake): demand two distinct scripts before calling it a defect
+    flagged = other[:3] + (echo_only[:3] if len({lines[i] for i in echo_only}) >= 2 else [])
+    for i in flagged:
+        chk.violation("auth FSM: a peer that never used the cookie (replayed / foreign-cookie / garbage digests only) "
+                      "drove the state machine to Ok",
+                      "C17 oracle (Ok only for a peer that computed a digest with this side's cookie) rejects the real state machine\n"
+                      + json.dumps({"kind": "fsm", "harness_line": lines[i], "resolved_ops": pairs[i][0],
+                                    "impl_states": pairs[i][1],
+                                    "cookieless_scripts_reaching_ok": len(cookieless)}, indent=1))
+    chk.count("fsm.cookieless_scripts", sum(1 for c in cases if not peer_knows_cookie(c)))
     for i in bad[:5]:
         c = cases[i]
         same, ok = verdicts[i]
@@ -205,6 +310,7 @@ def run(chk):
         return chk.finish(trusted_base=TRUSTED)
 
     n_fsm, n_ex, distinct = run_fsm(chk, build, factor)
+    n_fsm += run_hash(chk, build, factor)
     import c17_gate
     n_gate, distinct_gate = c17_gate.run_gate(chk, build, factor)
     n_unit, distinct_unit = c17_gate.run_units(chk, build, factor)
